@@ -4,6 +4,7 @@ package selector
 
 import (
 	"fmt"
+	"strings"
 
 	"golang.org/x/net/html"
 	"golang.org/x/net/html/atom"
@@ -648,3 +649,53 @@ func vNthSiblingIndex() (int, []string) {
 //@   requires n != nil
 //@   modifies nothing
 //@   loop 1 step[counts-same-name-elements] count == old(count) + ite(old(c.Type) == html.ElementNode && (!s.ofType || old(c.Data) == n.Data), 1, 0)
+
+// bounded stand-in (C05, ":has()"): matching relative to the DOM tree is outside the contracts. vHasDepth builds
+// every chain of one to six nested elements below a <section> with the class x on the element at depth k (or on
+// none), optionally with a sibling text and comment at each level, and compares `section:has(.x)`,
+// `section:not(:has(.x))`, `section:haschild(.x)` and `section:has(em)` with their definitions: some descendant
+// (at ANY depth) / some child matches.
+func vHasDepth() (n int, fails []string) {
+	tags := []string{"div", "ul", "li", "p", "span", "em"}
+	for depth := 1; depth <= 6; depth++ {
+		for k := 0; k <= depth; k++ { // 0: no element carries the class
+			for _, noise := range []string{"", "t<!--c-->"} {
+				open, close := "", ""
+				for d := 1; d <= depth; d++ {
+					cls := ""
+					if d == k {
+						cls = ` class="x"`
+					}
+					open += noise + "<" + tags[d-1] + cls + ">"
+					close = "</" + tags[d-1] + ">" + close
+				}
+				root, err := html.Parse(strings.NewReader("<html><body><section>" + open + close + "</section></body></html>"))
+				if err != nil {
+					fails = append(fails, err.Error())
+					continue
+				}
+				for sel, want := range map[string]bool{
+					"section:has(.x)":       k != 0,
+					"section:not(:has(.x))": k == 0,
+					"section:haschild(.x)":  k == 1,
+					"section:has(em)":       depth == 6,
+					"section:has(div span)": depth >= 5,
+				} {
+					n++
+					g, err := ParseGroup(sel)
+					if err != nil {
+						fails = append(fails, sel+": "+err.Error())
+						continue
+					}
+					if got := len(MatchAll(root, g)) == 1; got != want && len(fails) < 6 {
+						fails = append(fails, fmt.Sprintf("%s on a chain of depth %d with .x at depth %d (noise %q): matched %v, expected %v", sel, depth, k, noise, got, want))
+					}
+				}
+			}
+		}
+	}
+	return n, fails
+}
+
+//@ bounded vHasDepth :has() with descendant and child arguments on every chain of one to six nested elements with the matching element at each depth (270 selector / document pairs), against the definition
+//@   props C05
